@@ -14,4 +14,47 @@ CHECKS = {
     ),
 }
 
+CHECKS.update({
+    'C01': dict(
+        level='exploration',
+        technique='round-trip property over generated values with constructed lengths around the storage threshold (Hypothesis), strict type/bit equality oracle',
+        text='Values of every supported kind are built to exact lengths around disk_min_file_size, stored under all pickle protocols with Disk and JSONDisk '
+             'and read back through every accessor; equality is strict (type, IEEE bits, code points, recursive). Unstorable values must raise and leave the old value.',
+        note='JSONDisk is judged on its own contract (objects via JSON, streams raw). Known finding: Deque indexing on JSONDisk (recorded, excluded by construction, counted).',
+        ref='3/C01',
+    ),
+    'C02': dict(
+        level='exploration',
+        technique='pairwise key-identity oracle over generated and derived key pairs (Hypothesis), incl. paged sorted iteration',
+        text='Pairs of keys, independent or derived across the encoding boundaries (int/float twins, bool/int, str/bytes, bytes equal to a pickle of the other key, '
+             'int64 borders), are stored in one cache; equal documented identity must give one entry, different identity two, in every lookup and all four iteration orders.',
+        note='Identity oracle is written from the tutorial (Disk, Caveats); both keys are rebuilt by one deterministic builder (pickling caveat, issue #54).',
+        ref='3/C02',
+    ),
+    'C04': dict(
+        level='exploration',
+        technique='model-based histories under a virtual clock with frozen-clock batches (shared expiry times) and non-positive expiry times',
+        text='Expiry-weighted histories (incl. >100 items on one expire_time, expire_time <= 0, cull_limit 0/1/2/10, queues) are compared with the reference model on every '
+             'lookup on both sides of the expiry instant, on expire()/cull() completeness and on what lazy culls may remove.',
+        note='Exact ties now == expire_time are excluded by construction of the clock; the property is silent there and the code is not uniform.',
+        ref='3/C04',
+    ),
+    'C09': dict(
+        level='exploration',
+        technique='explain-the-diff validity oracle over generated write/read histories; cull volume observed at the SQL seam; policy keys kept by the model',
+        text='After every call each vanished key must be expired or a policy-minimal eviction that happened with observed volume >= size_limit, at most cull_limit per write, '
+             'never under policy none; cull() is judged on completeness, order, end state and return value; FanoutCache shards on their divided limit.',
+        note='The observed volume is read on the cache\'s own connection immediately before its PRAGMA page_count (seam self-tested).',
+        ref='3/C09',
+    ),
+    'C16': dict(
+        level='exploration',
+        technique='exhaustive enumeration of small-arity call signatures (cache-key collision oracle with an echo function) + Hypothesis wrapper histories under a virtual clock',
+        text='All 82 000 signatures with <= 3 positionals and kwargs within {a,b} over a 9-value alphabet x typed x 5 ignore sets are keyed; equal keys must be calls the '
+             'function answers identically. Wrapper histories through all five decorators check result equality, no re-run within expiry, re-run after, expire=0 stores nothing.',
+        note='memoize_stampede runs with random pinned to never-early; its probabilistic early recomputation is not judged.',
+        ref='3/C16',
+    ),
+})
+
 NOT_APPLICABLE = {p: PENDING for p in ['C%02d' % i for i in range(1, 21)] if p not in CHECKS}
